@@ -16,6 +16,8 @@ def run_suite(timeout=1500):
     env["PYTHONPATH"] = os.pathsep.join([core.VERIF, core.DEPS, core.REPO])
     env["MF_PLUGIN_OUT"] = out
     env["MF_REPO"] = core.REPO
+    scratch = tempfile.mkdtemp(prefix="mf-suite-tmp-")
+    env["TMPDIR"] = scratch  # the tests leave temporary files behind: they go where they can be removed
     cmd = [core.PY, "-m", "pytest", "-q", "-p", "no:cacheprovider", "-p", "mf.pytest_plugin", "--deselect",
            "tests/test_map_collection.py::test_maps", "-x", "--timeout=900", "tests", "docs/examples"]
     try:
@@ -29,4 +31,6 @@ def run_suite(timeout=1500):
             os.remove(out)
         except OSError:
             pass
+        import shutil
+        shutil.rmtree(scratch, ignore_errors=True)
     return data, tail
